@@ -5,6 +5,7 @@ import (
 	"go/ast"
 	"go/parser"
 	"go/token"
+	"go/types"
 	"sort"
 	"strings"
 
@@ -426,6 +427,7 @@ func c10genpair(c *core.Check, st *tmpl.Static) {
 	cfg.TypedefRefs = true
 	agg := newAggregate()
 	shapes := map[string]bool{}
+	issetClass := c10issetTable(c, st)
 	runs, trunc, err := st.EnumerateWorlds(cfg, func(w *tmpl.World) error {
 		fT := w.NamedType("generator/golang", "Field")
 		cwT := w.NamedType(fastgoRel, "codewriter")
@@ -512,6 +514,41 @@ func c10genpair(c *core.Check, st *tmpl.Static) {
 				agg.fail("blength-equals-append", fastgoRel+"/genBLengthField~genFastAppendField", fmt.Sprintf("under [%s] shape %s: BLength counts %s but FastAppend writes %s", val, sh, cb, ca))
 			}
 		}
+		// an optional field is written iff the standard code's IsSet says so: the guard the emitters put around the
+		// field must be of the same kind as the IsSet body the go templates render for this kind of field
+		if rq, ok := po(pf).Peek("Requiredness").(int64); ok && strings.HasSuffix(w.EnumName("parser", "FieldType", rq), "Optional") && sh != nil {
+			_, hasDef := po(pf).Peek("Default").(*tmpl.Obj)
+			// the Go type of the field is a free symbol of the abstract world; only worlds in which its pointer-ness is what
+			// NeedRedirect (interpreted from its own body) says for this field exist
+			feasible := true
+			if nr, ok := w.Prog.Pkg("generator/golang").Types.Scope().Lookup("NeedRedirect").(*types.Func); ok {
+				if res, err := w.CallGo(nr, nil, []tmpl.Value{pf}, 0); err == nil && len(res) == 1 {
+					if b, ok := res[0].(bool); ok {
+						for ck, cv := range w.Or.Valuation() {
+							if strings.HasPrefix(ck, "ispointer:") && strings.Contains(ck, "f_typeName") && (cv == 1) != b {
+								feasible = false
+							}
+						}
+					}
+				}
+			}
+			if !feasible {
+				return nil
+			}
+			want, known := issetClass[issetKey(sh, hasDef)]
+			gk := fastgoRel + "/genBLengthField~genFastAppendField~FieldIsSet"
+			agg.check("optional-guard-agrees-with-isset", gk)
+			if !known {
+				agg.fail("optional-guard-agrees-with-isset", gk, fmt.Sprintf("under [%s] shape %s: the go templates' IsSet for this kind of field was not rendered (table %v)", val, sh, issetClass))
+			} else {
+				for which, stmts := range map[string][]ast.Stmt{"BLength": bs, "FastAppend": as} {
+					got := guardClass(stmts)
+					if got != want && got != "isset" {
+						agg.fail("optional-guard-agrees-with-isset", gk, fmt.Sprintf("under [%s] shape %s (default %v): %s guards the optional field with a %s test, the standard IsSet is a %s test: a value on which the two differ (nil with a default, for instance) is written by one codec and not by the other", val, sh, hasDef, which, got, want))
+					}
+				}
+			}
+		}
 		// header
 		agg.check("append-header", fastgoRel+"/genFastAppendField")
 		hdrOK := false
@@ -555,9 +592,101 @@ func c10genpair(c *core.Check, st *tmpl.Static) {
 		"read-var-type-matches-reader":     "string variables are filled by ReadString, []byte variables by ReadBinary",
 		"blength-equals-append":            "symbolic byte count of BLength = bytes FastAppend writes",
 		"append-header":                    "3-byte header (spec wire type, id high, id low)",
+		"optional-guard-agrees-with-isset": "the guard around an optional field is of the same kind (nil / default / content) as the rendered IsSet",
 		"read-consumes-what-append-writes": "FastRead's wire-event tree equals FastAppend's",
 	})
 	c.Min("read-consumes-what-append-writes", 1)
+}
+
+func issetKey(sh *shape, hasDef bool) string {
+	cat := sh.Cat
+	switch {
+	case sh.isStructLike():
+		cat = "Struct"
+	case sh.isContainer():
+		cat = "Container"
+	case cat != "Binary" && cat != "String":
+		cat = "Scalar"
+	}
+	return fmt.Sprintf("%s/%v", cat, hasDef)
+}
+
+// guardClass classifies the statement list emitted for one field: "always" (no enclosing if), "nil" (X != nil),
+// "isset" (a call of an IsSet method), "content" (string(X) != string(D) or bytes.Equal), "default" (X != D).
+func guardClass(stmts []ast.Stmt) string {
+	var is *ast.IfStmt
+	for _, s := range stmts {
+		if x, ok := s.(*ast.IfStmt); ok {
+			is = x
+			break
+		}
+		if _, ok := s.(*ast.EmptyStmt); ok {
+			continue
+		}
+		return "always"
+	}
+	if is == nil {
+		return "always"
+	}
+	return condClass(is.Cond)
+}
+
+func condClass(cond ast.Expr) string {
+	switch x := ast.Unparen(cond).(type) {
+	case *ast.CallExpr:
+		return "isset"
+	case *ast.UnaryExpr:
+		if _, ok := ast.Unparen(x.X).(*ast.CallExpr); ok {
+			return "content"
+		}
+	case *ast.BinaryExpr:
+		if x.Op == token.NEQ {
+			if rules.ExprText(x.Y) == "nil" {
+				return "nil"
+			}
+			if _, ok := ast.Unparen(x.X).(*ast.CallExpr); ok {
+				return "content"
+			}
+			return "default"
+		}
+	}
+	return "other:" + rules.ExprText(cond)
+}
+
+// c10issetTable renders the go templates' FieldIsSet for every kind of optional field and records of which kind the
+// IsSet body is.
+func c10issetTable(c *core.Check, st *tmpl.Static) map[string]string {
+	out := map[string]string{}
+	var mu sync2
+	units := []unit{{Set: "default", Def: "FieldIsSet", DotRel: "generator/golang", DotType: "StructLike", Lists: []int{1}}}
+	runUnits(c, st, units, func(r *rendered) {
+		if r.R.Err != nil || r.ParseErr != nil {
+			return
+		}
+		fields := fieldsOf(r)
+		if len(fields) != 1 || fields[0].Shape == nil {
+			return
+		}
+		f := fields[0]
+		fd := findFunc(r.P.File, f.IsSet)
+		if fd == nil || len(fd.Body.List) != 1 {
+			return
+		}
+		rs, ok := fd.Body.List[0].(*ast.ReturnStmt)
+		if !ok || len(rs.Results) != 1 {
+			return
+		}
+		k := issetKey(f.Shape, f.HasDefault)
+		cl := condClass(rs.Results[0])
+		mu.Lock()
+		if prev, ok := out[k]; ok && prev != cl {
+			out[k] = "ambiguous(" + prev + "," + cl + ")"
+		} else if !ok {
+			out[k] = cl
+		}
+		mu.Unlock()
+	})
+	return out
 }
 
 func po(v tmpl.Value) *tmpl.Obj {
@@ -672,16 +801,5 @@ func c10bitset(c *core.Check) {
 		return true
 	})
 	c.Decide(skips, "unknown-field-skipped", key+"/default", c.Prog.Rel(fd.Pos()), "the default arm skips the value by its wire type", "FastRead no longer skips unknown or mistyped fields")
-	// the case key is id<<8|wire from the same table as the header
-	caseOK := false
-	ast.Inspect(fd.Body, func(n ast.Node) bool {
-		if be, ok := n.(*ast.BinaryExpr); ok && be.Op == token.OR {
-			t := rules.ExprString(be)
-			if strings.Contains(t, "f.ID") && strings.Contains(t, "<< 8") && strings.Contains(t, "category2ThriftWireType[f.Type.Category]") {
-				caseOK = true
-			}
-		}
-		return true
-	})
-	c.Decide(caseOK, "read-case-key", key+"/case", c.Prog.Rel(fd.Pos()), "case key = uint32(id)<<8 | category2ThriftWireType[category] (same table as the writer's header)", "FastRead's case key is not built from the field id and the wire-type table the writer uses")
+	// the case key itself is decided by c10caseKey (read-case-label-equals-switch), exhaustively over ids and wire types
 }
